@@ -67,13 +67,10 @@ def run(ctx: Ctx) -> None:
     ctx.assume("task functions of the library are deterministic and terminate",
                "runtime error messages produced by Python itself are not modelled (class only)")
     # ---- spec -> code: the enumerated grammar ------------------------------------------------------
-    progs = EL.enumerate_programs(ctx, deep=not ctx.quick)
+    # quick: all 528 programs of depth 1; thorough: plus every 15th of the 83,952 programs of depth 2
+    stride = 15
+    progs = EL.enumerate_programs(ctx, deep=not ctx.quick, stride=stride, offset=1 + ctx.seed % stride)
     ctx.require(len(progs) >= 500, f"enumeration too small: {len(progs)}")
-    if not ctx.quick and len(progs) > 6000:
-        # depth 2 is large: all of depth 1 plus a seeded sample of depth 2
-        head, tail = progs[:528], progs[528:]
-        ctx.rng.shuffle(tail)
-        progs = head + tail[:5500]
     nsingle = 0
     for p in progs:
         expr = EL.build(p["e"])
